@@ -3,7 +3,7 @@
 path_set,path_next,path_last,path_add,path_del}.c, node/node_locate.c, meta/meta_set.c, meta/meta_new.c, mpt++/config.cpp).
 
 Case grammar (one line, id added by vcheck):
-  G|H|R|X|J <nv> <pathspec>*nv <no> <pathspec>*no <op>...
+  G|H|R|X|J|Gc|Hc|Rc|Xc <nv> <pathspec>*nv <no> <pathspec>*no <op>...
       G = process-global configuration (handle 0) and nv sub-tree views on base paths (handles 1..nv) through the C
           interface (mpt_config_set / mpt_config_query / mpt_config_getp / mpt_config_get, metatype side of the handles),
       H = the same store as C++ sees it (config::global, config::set / del / get<T>, config::environ),
@@ -12,14 +12,20 @@ Case grammar (one line, id added by vcheck):
       J = raw config_item array (mpt_config_item_reserve / _query, lazy removal);
       the <no> pathspecs are the observation points queried after EVERY operation (element as a query handler sees
       it / existence / value as vector of char / value as 's' [/ value through the '.'-string accessor]);
+      with the suffix c every observation path is also asked for the value ITSELF (TypeConvertablePtr:
+      mpt_config_getp / mpt_config_get with MPT_ENUM(TypeConvertablePtr), config::get(path, convertable *&) and
+      config::get(const char *, convertable *&), the form examples/cxx/config.cpp uses): [/ getp [/ '.'-string form]];
       op: a <pathspec> <valuehex|->   assign        r <pathspec>   remove
           d <pathspec>   (J) mark unused, (H, X) config::del with -1 / full / short explicit length
           z <pathspec>   (R, X) assign without value      y <pathspec>   (G) remove(NULL) on the handle
           l <pathspec>   query with a handler that walks the collection it receives (and one that refuses the first item)
-          n <pathspec>   (G) the handle converted to a node pointer     k <pathspec>   (G) metatype side of the handle, clone
-          env <sephex> <patternhex> <hex,hex,...>   (H, X) config::environ with an explicit variable list
+          n <pathspec>   (G) the handle converted to a node pointer     k <pathspec>   (G) metatype side of the handle, clone;
+                         (R, X) the forms without a path: remove(NULL), assign(NULL, value), query(NULL, NULL)
+          env <sephex> <patternhex> <hex,hex,...>   (H, X) config::environ with an explicit variable list;
+                         "env ~ ~ <list>" = config::environ() with its default arguments (the list becomes the process environment)
   P|Q <sephex> <assignhex> <op>...     path operations on one mpt path (Q: through the C++ mpt::path methods)
-      op: set <str> <len|-1> | next | last | del | add <n> | post <hex> | bin
+      op: set <str> <len|-1> | sets <str> <len|-1> <sephex|~> <assignhex|~> (path::set with explicit separator / assign
+          character, ~ = keep) | next | last | del | add <n> | post <hex> | bin
           | clr (mpt_path_invalidate / path::clear_data; "clrx": clear_data as long as it only cuts the array)
           | cp (copy construction) | asg (assignment to itself and into another path) | fork (the original stays alive)
   T                                     config::pointer_traits()
@@ -31,7 +37,7 @@ from vcheck import (DiffProperty, ASAN_ENV, VERIF, build_harness, build_model, r
 
 SEPS = [0x2e, 0x2f, 0x3a]
 ARITY = {"a": 2, "r": 1, "d": 1, "z": 1, "l": 1, "n": 1, "k": 1, "y": 1, "env": 3,
-         "set": 2, "next": 0, "last": 0, "del": 0, "add": 1, "post": 1, "bin": 0, "clr": 0, "clrx": 0, "cp": 0, "asg": 0, "fork": 0}
+         "set": 2, "sets": 4, "next": 0, "last": 0, "del": 0, "add": 1, "post": 1, "bin": 0, "clr": 0, "clrx": 0, "cp": 0, "asg": 0, "fork": 0}
 
 # Two defects of /repo found by driving mpt::path copies (docs/notes_C10.md, "open defects"); each constant
 # is to be set to True when the patch named next to it has been committed to /repo, nothing else changes.
@@ -44,6 +50,18 @@ ARITY = {"a": 2, "r": 1, "d": 1, "z": 1, "l": 1, "n": 1, "k": 1, "y": 1, "env": 
 #       paths; replay: docs/C10_clear_data_shared.replay.json
 PATCHED_PATH_ADD_SHARED = True
 PATCHED_CLEAR_DATA_SHARED = True
+
+# A third defect, found by driving config::get<T> with T = convertable * (what examples/cxx/config.cpp does; the
+# example silently skips its first print because of it): mptcore/config/config_get.c:_convert_value hands a request
+# for TypeConvertablePtr to the value's own convert(), which no text metatype (basic, buffer, C geninfo) answers, so
+#   config::get(path, convertable *&) / config::get(const char *, convertable *&) / mpt_config_getp(..,
+#   MPT_ENUM(TypeConvertablePtr), &val)
+# report "no value" for EVERY assigned path of EVERY store (process-wide, sub-tree view, config::root).
+#   PATCHED_GET_CONVERTABLE: docs/C10_get_convertable.diff (_convert_value hands out the convertable it was given).
+#       While False no case asks for the value itself (kind suffix "c" is not generated, flagged corpus lines are
+#       skipped); once True EVERY store case of kinds G, H, R, X (generated and corpus) reads every observation path
+#       that way too.  Replay: docs/C10_get_convertable.replay.json
+PATCHED_GET_CONVERTABLE = True
 
 
 def hx(bs):
@@ -78,11 +96,17 @@ class C10(DiffProperty):
             "_used) + a set of observation paths + a history of operations: assign, remove (also config::del with -1 / full / short "
             "explicit length, mpt_config_set with an end character), assignment without value (R, X), remove(NULL) / conversion to a node "
             "pointer / type list, addref, clone of a handle (G), listing through the collection a query handler receives (with a second "
-            "handler that refuses the first item), config::environ with an explicit variable list (H, X); after EVERY operation EVERY "
+            "handler that refuses the first item), config::environ with an explicit variable list or with its default arguments on a "
+            "process environment set up by the case (H, X), the path-less forms remove(NULL) / assign(NULL, value) / query(NULL, NULL) of "
+            "config::root (R, X); after EVERY operation EVERY "
             "observation path is read five ways (query handler; mpt_config_getp / config::get with type 0, vector of char, 's'; "
-            "mpt_config_get / get<T>(const char *) for '.'-separated strings) and the whole tree or slot array is dumped (H: through "
-            "collectionEach); or (P / Q) one mpt path + a history of set/next/last/del/add/post/bin/clear/copy/assign, walked element by "
-            "element after every operation. quick: every history of length <= 3 over 5 paths x {assign, remove} for G, R and J and of "
+            "mpt_config_get / get<T>(const char *) for '.'-separated strings) - seven ways once PATCHED_GET_CONVERTABLE is set (kind suffix "
+            "c: also the value itself through mpt_config_getp / mpt_config_get with TypeConvertablePtr, config::get(path, convertable *&) "
+            "and config::get(const char *, convertable *&); the object handed out must be the one a query handler sees) - and the whole "
+            "tree or slot array is dumped (H: through "
+            "collectionEach); or (P / Q) one mpt path + a history of set (also path::set with explicit separator / assign character) "
+            "/next/last/del/add/post/bin/clear/copy/assign, walked element by "
+            "element after every operation (Q: committed bytes through path::value(), post data through path::data()). quick: every history of length <= 3 over 5 paths x {assign, remove} for G, R and J and of "
             "length <= 2 for H and X (exhaustive), every history of length <= 3 over 8 operations of one view and the global handle "
             "around it, every string of length <= 4 over {sep, assign, 'a'} through path_set (string and explicit lengths) with "
             "next/last, plus random histories of 4..14 operations over path sets with shared prefixes, prefix-of-another paths, repeated "
@@ -94,8 +118,9 @@ class C10(DiffProperty):
                 "config_item_query,config_item_reserve}.c, node/node_locate.c (forward search by name), meta/meta_set.c + meta_new.c (text values, "
                 "the 8-bit size limit of the basic metatype) and mpt++/config.cpp (config::root assign / remove / query incl. the NULL forms, "
                 "config::set / get / del, path::clear_data, path copies) transcribed in coq/C10/ConfigModel.v; the caller-level entry points "
-                "(mpt_config_set with end character, mpt_config_getp / mpt_config_get with the requested conversion, config::del with explicit "
-                "length, conversion of a view to its node, remove(NULL), the listing handed to a query handler) are compositions of "
+                "(mpt_config_set with end character, mpt_config_getp / mpt_config_get with the requested conversion - type 0, 's', vector "
+                "of char, TypeConvertablePtr = the value itself AS PATCHED by docs/C10_get_convertable.diff -, config::del with explicit "
+                "length, mpt::path::set with separator / assign character (PSep + PSet), conversion of a view to its node, remove(NULL), the listing handed to a query handler) are compositions of "
                 "mpt_path_set and the interface calls (wstep / xstep); the node "
                 "tree is a pure ordered forest (prev/next/parent links are C14's subject, the harness checks them and reports a flag), "
                 "identifiers are byte strings with the 16-bit length limit (storage is C16's subject), buffers/arrays are lists (C04: the "
@@ -115,14 +140,20 @@ class C10(DiffProperty):
                "there (harness/c10_ubsan.supp) because mpt++ deliberately views C-allocated buffers as C++ objects; config::root is destroyed "
                "at the end of every R / X case (ASan)",
                "text of a value is read through the vector-of-char conversion (the buffer metatype for long text offers no 's' conversion)",
-               "ml/c10_driver.ml: expansion of config::environ, the constant handle facts, the glob matcher for * and ?"]
-    level_text = ("proof: Coq theorems (coq/C10/Properties.v, 21, all closed under the global context) "
+               "ml/c10_driver.ml: expansion of config::environ (explicit and default arguments), the constant handle facts (metatype side of "
+               "the global handles; remove(NULL) / assign(NULL, ..) / query(NULL, NULL) of config::root: the observations that follow "
+               "show that nothing changed), the glob matcher for * and ?",
+               "asked for the value itself (TypeConvertablePtr) the harnesses compare the pointer handed out with the one the query "
+               "handler received and read the text from that object"]
+    level_text = ("proof: Coq theorems (coq/C10/Properties.v, 26, all closed under the global context) "
                   "C10_path_elements / C10_path_elements_string / C10_string_key / C10_string_key_end / C10_del_key / C10_path_next_element "
                   "(mpt_path_set over ANY byte string or C string, any separator, any assign / end character, any explicit length, any element "
                   "lengths, yields a well-formed path and repeated mpt_path_next visits exactly the separator-delimited components up to the "
                   "assign character, each read from inside the storage), "
                   "C10_path_rebuild (adding the elements one by one with mpt_path_add, separator mode, gives a path that walks back to exactly "
-                  "those elements, every element length), C10_clear_keeps_elements (mpt_path_invalidate / path::clear_data drop the post data "
+                  "those elements, every element length), C10_path_rebuild_binary (the same in binary-length mode, SepBinary: elements of "
+                  "ANY bytes, the separator too, up to 255 bytes each, give the layout e1 |e1| |e2| e2 |e2| ... en |en| 0 and mpt_path_next "
+                  "walks back exactly those elements), C10_clear_keeps_elements (mpt_path_invalidate / path::clear_data drop the post data "
                   "and nothing else), C10_config_refines_map + C10_step_refines (after ANY history of assign / remove / "
                   "query through the process-global configuration and through sub-tree views on arbitrary base paths, every result class and "
                   "every queried entry equals the history specification: the value most recently assigned to exactly that path, "
@@ -131,7 +162,10 @@ class C10(DiffProperty):
                   "config::del with explicit length, mpt_config_getp / mpt_config_get / config::get with type 0 / 's' / vector of char, "
                   "conversion of a view to its node, remove(NULL), listing), C10_getp_reads_spec / C10_get_reads_spec (in every reachable state "
                   "the value accessors return exactly the text the specification holds for that key, MissingData for an absent or value-less "
-                  "one), C10_listing_reads_store / C10_root_listing_reads_store (the collection a query handler receives is the store beneath "
+                  "one), C10_getp_convertable_is_assigned_value / C10_get_convertable_is_assigned_value / "
+                  "C10_root_get_convertable_is_assigned_value (asked for the value itself - TypeConvertablePtr, config::get(path, "
+                  "convertable *&) - the accessors hand out the value most recently assigned to exactly that key, for every length and "
+                  "every store: process-wide, sub-tree view, config::root; model as patched), C10_listing_reads_store / C10_root_listing_reads_store (the collection a query handler receives is the store beneath "
                   "the queried element), C10_root_refines_map + C10_root_api_refines_map (the C++ config::root slot "
                   "arrays with unused-slot reuse, eager and lazy removal, assignment without value, and its wrappers config::set / del / get), "
                   "C10_assign_frame (an assignment changes the reading of its own key "
@@ -143,20 +177,30 @@ class C10(DiffProperty):
                   "path_last offset / 8-bit length / binary start / signed length, path_add 8-bit first / binary first after consumption, "
                   "path_del array cut, meta_new argument order / size threshold, first global element unlink, config_item_query _size, "
                   "config_item_reserve cut length, config::root::remove set_name, mpt::path::add argument) - see docs/notes_C10.md. "
-                  "OPEN in /repo (found by driving mpt::path copies, not yet committed, generator switches PATCHED_* in props/c10.py): "
-                  "mpt_path_add writes separators into an array shared with a copy of the path (docs/C10_path_add_shared.diff, replay "
-                  "docs/C10_path_add_shared.replay.json) and path::clear_data cuts a shared array (docs/C10_clear_data_shared.diff, replay "
-                  "docs/C10_clear_data_shared.replay.json); until then no history keeps the original of a copied path alive. "
+                  "Also committed since: mpt_path_add no longer writes separators into an array shared with a copy of the path, "
+                  "path::clear_data no longer cuts a shared array (switches PATCHED_PATH_ADD_SHARED / PATCHED_CLEAR_DATA_SHARED on). "
+                  "OPEN in /repo (switch PATCHED_GET_CONVERTABLE in props/c10.py, off): config::get(path, convertable *&) / "
+                  "config::get(const char *, convertable *&) / mpt_config_getp(.., TypeConvertablePtr, ..) report 'no value' for EVERY "
+                  "assigned path of every store - config_get.c:_convert_value leaves the request to the value's own convert(), which no "
+                  "text metatype answers; examples/cxx/config.cpp silently skips its first print because of it. Patch "
+                  "docs/C10_get_convertable.diff (5 lines: _convert_value hands out the convertable it was given; ctest 29/29, the example "
+                  "prints again), replay docs/C10_get_convertable.replay.json = VIOLATION on /repo; the model and the three "
+                  "*_convertable_is_assigned_value theorems describe the patched function; until the switch is on no case asks for the "
+                  "value itself. "
                   "Guards: element names up to 65534 "
                   "bytes (16-bit identifier length; longer names are refused after the nodes in front were created - Example "
                   "C10_name_limit_witness); config::root reports the empty path as absent; config::del lengths up to strlen + 1. "
                   "Specification detail: which conversions a stored text offers is part of get_view - text of 250 bytes and more in the C store "
                   "is not available as 's' (mpt_config_get(.., 's', ..) reports BadType; vector of char works; Example C10_long_value_views). "
                   "NOT proved, only cross-checked against the abstract "
-                  "path specification astep by the correspondence run: binary-length mode (SepBinary) of path_next/add/del/last, mpt_path_last "
-                  "and mpt_path_del, path_add on paths with an offset. Compared with the specification only (no model of the mechanism): that "
+                  "path specification astep by the correspondence run: mpt_path_last and mpt_path_del (both modes), path_add on paths with "
+                  "an offset, binary-mode histories that mix add with next / del (the binary build-then-walk is proved: "
+                  "C10_path_rebuild_binary). Compared with the specification only (no model of the mechanism): that "
                   "copies of an mpt::path sharing one array do not disturb each other (the model has values, not references), "
-                  "config::environ (expanded by the driver), the metatype facts of a handle, config::pointer_traits. Not driven: "
+                  "config::environ (expanded by the driver), the metatype facts of a handle, the path-less forms of config::root, "
+                  "config::pointer_traits / type_properties<config *>. Observation (not C10's subject, not driven): "
+                  "config::get(path, metatype *&) fails on a config::root value of 255+ bytes - io::buffer::metatype::convert names its "
+                  "own class where ::mpt::metatype is meant (injected class name), so TypeMetaPtr is not answered. Not driven: "
                   "type_properties<config_item>::id / traits of mpt++/config.cpp (declared inline in config.h, defined out of line and never "
                   "emitted: no program can link against them), assignment without value through the C store, the refusal branches behind a "
                   "65535-byte name. Link fields of the node tree (checked by the harness, flag in every "
@@ -171,8 +215,8 @@ class C10(DiffProperty):
         hr = build_harness(self.harness_cxx, ["mptcore", "mpt++"])
         mx = build_model(self.mlname, self.driver, self.extract_vo)
         ided = ["c%d %s" % (i, c) for i, c in enumerate(cases)]
-        cc = [c for c in ided if c.split()[1] not in CXX_KINDS]
-        rc = [c for c in ided if c.split()[1] in CXX_KINDS]
+        cc = [c for c in ided if c.split()[1][0] not in CXX_KINDS]
+        rc = [c for c in ided if c.split()[1][0] in CXX_KINDS]
         I = {}
         errs = []
         if cc:
@@ -255,7 +299,10 @@ class C10(DiffProperty):
 
     def classify(self, case):
         hdr, ops = self.split(case)
-        cl = {"kind:" + hdr[0]}
+        kind = hdr[0][0]
+        cl = {"kind:" + kind}
+        if hdr[0][1:] == "c":
+            cl.add("value-as-convertable")
         if hdr[0] == "T":
             return cl
         if hdr[0] in ("P", "Q"):
@@ -266,7 +313,7 @@ class C10(DiffProperty):
             if any(o[0] == "bin" for o in ops):
                 cl.add("binary-mode")
             if not any(o[0] != "set" for o in ops):
-                cl.discard("kind:" + hdr[0])
+                cl.discard("kind:" + kind)
                 return cl if len(cl) > 0 else set()
             return cl
         if int(hdr[1]):
@@ -275,16 +322,18 @@ class C10(DiffProperty):
         for o in ops:
             if o[0] == "env":
                 cl.add("environ")
+                if o[1] == "~":
+                    cl.add("environ-defaults")
                 nontriv = True
                 continue
             s = o[1].split(":")
             body = s[2]
             sep = "%s" % s[1]
             if o[0] in ("l", "n", "k", "z", "y"):
-                cl.add({"l": "listing", "n": "node-conversion", "k": "handle-metatype", "z": "assign-no-value",
-                        "y": "remove-null-path"}[o[0]])
+                cl.add({"l": "listing", "n": "node-conversion", "k": "handle-metatype" if kind == "G" else "null-path-forms",
+                        "z": "assign-no-value", "y": "remove-null-path"}[o[0]])
                 nontriv = True
-            if o[0] == "d" and hdr[0] in ("H", "X"):
+            if o[0] == "d" and kind in ("H", "X"):
                 cl.add("del-wrapper")
             if o[0] in ("r", "d"):
                 cl.add("remove")
@@ -367,6 +416,11 @@ class C10(DiffProperty):
         if kind == "J":
             obs.append((0, sep, b"zz"))
             obs.append((0, sep, rng.choice(paths) + bytes([sep]) + b"zz"))
+        envp = None
+        if kind in ("H", "X") and rng.random() < 0.35:
+            # where config::environ() with its default arguments ("mpt_*", '_') puts a variable MPT_<path>
+            envp = [p for p in paths if b"=" not in p and b"," not in p and len(p) < 600] or [b"a"]
+            obs.append((0, 0x5f, b"mpt_" + rng.choice(envp)))
         ops = []
         tree = kind in ("G", "H")
         for _ in range(rng.choice([4, 6, 8, 10, 14])):
@@ -396,6 +450,10 @@ class C10(DiffProperty):
                     ops += ["y", spec(h, sep, None)]                  # remove(NULL): value of the base element
                 elif y < 0.80 and kind in ("R", "X"):
                     ops += ["z", s]                                   # assignment without value
+                elif y < 0.86 and kind in ("R", "X"):
+                    ops += ["k", spec(0, sep, None)]                  # remove(NULL) / assign(NULL, ..) / query(NULL, NULL)
+                elif kind in ("H", "X") and envp and rng.random() < 0.6:
+                    ops += self.gen_env_default(rng, envp)
                 elif kind in ("H", "X"):
                     ops += self.gen_env(rng, sep, paths)
                 else:
@@ -438,6 +496,42 @@ class C10(DiffProperty):
                 ents.append(name + b"=" + self.gen_value(rng))
         pat = rng.choice([b"*", b"*", b"*", b"a*", b"mpt" + bytes([sep]) + b"*", b"?", b"*b"])
         return ["env", "%02x" % (sep if rng.random() < 0.9 else 0), hx(pat), ",".join(hx(e) for e in ents)]
+
+    def gen_env_default(self, rng, names):
+        """config::environ() with its default arguments: pattern "mpt_*", separator '_', the process environment
+        (the harness installs this list as the environment of the case)"""
+        ents = []
+        for _ in range(rng.choice([1, 2, 3])):
+            r = rng.random()
+            name = b"mpt_" + rng.choice(names)
+            if r < 0.2:
+                name = rng.choice([b"home", b"mptx", b"path"])        # not matched by mpt_*
+            if rng.random() < 0.6:
+                name = name.upper()
+            ents.append(name + b"=" + self.gen_value(rng) if r < 0.9 else name)
+        return ["env", "~", "~", ",".join(hx(e) for e in ents)]
+
+    def gen_convcases(self):
+        """the value itself (TypeConvertablePtr / get<convertable *>) for every store kind, value lengths around the
+        limits of the metatypes that hold text (249 / 250: basic -> buffer in the C store, 254 / 255 in the C++ one),
+        overwritten, read through a view, removed; the first one is what examples/cxx/config.cpp does"""
+        out = ["Xc 0 1 0:2e:612e76616c75652e74657874 a 0:2e:612e76616c75652e74657874 4465722074c3a4c4b8e1ba9ec5a6"]
+        for kind in "GHRX":
+            for n in (0, 1, 5, 249, 250, 254, 255, 300):
+                v = hx(b"v" * n)
+                hdr = [kind + "c"]
+                if kind in "GH":
+                    obs = [spec(0, 0x2e, b"a.b"), spec(1, 0x2e, b"b"), spec(0, 0x2e, b"a"), spec(0, 0x2f, b"a.b"), spec(1, 0x2e, None)]
+                    hdr += ["1", spec(0, 0x2e, b"a"), str(len(obs))] + obs
+                    ops = ["a", spec(1, 0x2e, b"b"), v, "a", spec(0, 0x2e, b"a.b"), "3132", "a", spec(0, 0x2e, b"a"), v,
+                           "r", spec(1, 0x2e, b"b"), "a", spec(0, 0x2f, b"a.b"), v, "r", spec(0, 0x2e, b"a")]
+                else:
+                    obs = [spec(0, 0x2e, b"a.b"), spec(0, 0x2e, b"a"), spec(0, 0x2f, b"a.b"), spec(0, 0x2e, b"a.b.c")]
+                    hdr += ["0", str(len(obs))] + obs
+                    ops = ["a", spec(0, 0x2e, b"a.b"), v, "a", spec(0, 0x2e, b"a.b"), "3132", "a", spec(0, 0x2e, b"a"), v,
+                           "z", spec(0, 0x2e, b"a"), "a", spec(0, 0x2f, b"a.b"), v, "r", spec(0, 0x2e, b"a")]
+                out.append(" ".join(hdr + ops))
+        return out
 
     def exhaustive_store(self, kind, depth):
         paths = [b"a", b"b", b"a.a", b"a.b", b""]
@@ -499,10 +593,16 @@ class C10(DiffProperty):
             s = bytes([sep]).join(el)
             if asg and rng.random() < 0.5:
                 s += bytes([asg]) + b"val"
+            form = ["set", hx(s)]
+            if rng.random() < 0.25:
+                # mpt::path::set(str, len, sep, assign): separator and / or assign character replaced first
+                form = ["sets", hx(s)]
             if rng.random() < 0.7:
-                ops += ["set", hx(s), "-1"]
+                ops += form + ["-1"]
             else:
-                ops += ["set", hx(s), str(rng.randrange(0, len(s) + 1))]
+                ops += form + [str(rng.randrange(0, len(s) + 1))]
+            if form[0] == "sets":
+                ops += [rng.choice(["~", "%02x" % sep, "%02x" % rng.choice(SEPS)]), rng.choice(["~", "00", "3d", "%02x" % asg])]
             for _ in range(rng.choice([1, 2, 4, 6])):
                 ops += [rng.choice(["next", "next", "last", "del", "cp", "asg", "clr"] + (["fork"] if PATCHED_PATH_ADD_SHARED else []))]
         else:
@@ -570,7 +670,22 @@ class C10(DiffProperty):
         if PATCHED_PATH_ADD_SHARED:
             for i in range(150 if tier == "quick" else 4000):
                 cases.append(self.gen_forkcase(rng))
-        return [self.clear_form(c) for c in cases]
+        if PATCHED_GET_CONVERTABLE:
+            cases += self.gen_convcases()
+        return [self.conv_form(self.clear_form(c)) for c in cases]
+
+    @staticmethod
+    def conv_form(case):
+        """once config_get.c is patched every store case also asks for the value itself (kind suffix c)"""
+        if PATCHED_GET_CONVERTABLE and case[:2] in ("G ", "H ", "R ", "X "):
+            return case[0] + "c" + case[1:]
+        return case
+
+    def corpus(self):
+        cs = DiffProperty.corpus(self)
+        if PATCHED_GET_CONVERTABLE:
+            return [self.conv_form(c) for c in cs]
+        return [c for c in cs if c.split()[0] not in ("Gc", "Hc", "Rc", "Xc")]
 
     def clear_form(self, case):
         """mpt::path::clear_data (kind Q) as it is in /repo: "clrx" while unpatched (and never on a forked path)"""
